@@ -18,6 +18,7 @@ mod routes_gen;
 mod c02;
 mod c11;
 mod c12;
+mod c12x;
 mod c13;
 mod c09;
 mod c10;
